@@ -4,7 +4,10 @@
 (*                                                                           *)
 (* A tree T is a record:                                                     *)
 (*   entries : id -> [parent (id, "" for a search root's own level), name,   *)
-(*                    kind ("file" | "dir")]; ids are opaque strings         *)
+(*                    kind ("file" | "dir"), link]; ids are opaque strings;  *)
+(*             link (lstat fact): the directory is a symbolic link - it      *)
+(*             counts as a directory with the target's content; a symbolic   *)
+(*             link to a file is a file of its directory                     *)
 (*   names   : name -> facts about the *spelling* of that name, measured in  *)
 (*             Python (TLA+ never computes on strings):                      *)
 (*       ident    re '[_a-z]\w*$' (ignore case) matches      (find.identifier)*)
@@ -60,6 +63,9 @@ IsTestsDir(T, d, rootIdx) ==
   /\ IF d = T.walk[rootIdx] THEN T.walkT[rootIdx] ELSE NF(T, d).tdir
   /\ HasInit(T, d)
 
+(* no condition on the spelling of a FILE's stem beyond the two patterns:    *)
+(* tests/test-api.py is a test module (identifier names are asked of         *)
+(* directories only)                                                         *)
 FilesFound(T, d, rootIdx) ==
   LET td == IsTestsDir(T, d, rootIdx)
   IN ByRank(T, {f \in Kids(T, d, "file") :
@@ -67,9 +73,15 @@ FilesFound(T, d, rootIdx) ==
                   /\ \/ NF(T, f).stemT
                      \/ (td /\ NF(T, f).stemF)})
 
+(* a symlinked directory is subject to the same three conditions as any      *)
+(* other (its NAME decides, not where it leads); the walk visits a           *)
+(* directory's files, then its symlinked sub-directories, then the others,   *)
+(* each group in sorted order (walk_with_symlinks follows the links itself   *)
+(* before os.walk goes on)                                                   *)
 RECURSIVE Walk(_, _, _)
 Walk(T, d, rootIdx) ==
-  LET subs == ByRank(T, Descend(T, d))
+  LET ds == Descend(T, d)
+      subs == ByRank(T, {x \in ds : E(T, x).link}) \o ByRank(T, {x \in ds : ~E(T, x).link})
   IN FilesFound(T, d, rootIdx) \o FlattenSeq([k \in 1..Len(subs) |-> Walk(T, subs[k], rootIdx)])
 
 RECURSIVE Dedup(_, _, _)
